@@ -666,6 +666,11 @@ class Normalizer:
         else:
             fname_j = fname
         kw = dict((k_, v) for k_, v in kwargs if k_ is not None)
+        if fname_j is not None and fname_j.startswith("jax.numpy.") and "dtype" in kw and self.canon(kw["dtype"]) in FLOAT_DTYPES \
+                and fname_j.rsplit(".", 1)[-1] in ("ones_like", "zeros_like", "full_like", "ones", "zeros", "full", "empty_like"):
+            # a float dtype on an array constructor is a float cast, erased like every other float cast
+            kwargs = tuple((k_, v) for k_, v in kwargs if k_ != "dtype")
+            kw = dict((k_, v) for k_, v in kwargs if k_ is not None)
         if fname_j is not None and fname_j.startswith("jax.numpy."):
             short = fname_j[len("jax.numpy."):]
             if short in BINFUN and len(args) == 2 and not kw:
